@@ -795,8 +795,8 @@ macro_rules! impl_range_ints(
                 fn view_bounds(self, size: usize) -> Option<(usize, usize)> {
                     range_bounds(
                         Range {
-                            start: self.start as i64,
-                            end: self.end as i64,
+                            start: index_i64(self.start),
+                            end: index_i64(self.end),
                         },
                         size,
                     )
@@ -805,27 +805,27 @@ macro_rules! impl_range_ints(
 
             impl ViewBounds for RangeFrom<$int_type> {
                 fn view_bounds(self, size: usize) -> Option<(usize, usize)> {
-                    range_bounds(RangeFrom { start: self.start as i64 }, size)
+                    range_bounds(RangeFrom { start: index_i64(self.start) }, size)
                 }
             }
 
             impl ViewBounds for RangeTo<$int_type> {
                 fn view_bounds(self, size: usize) -> Option<(usize, usize)> {
-                    range_bounds(RangeTo { end: self.end as i64 }, size)
+                    range_bounds(RangeTo { end: index_i64(self.end) }, size)
                 }
             }
 
             impl ViewBounds for RangeInclusive<$int_type> {
                 fn view_bounds(self, size: usize) -> Option<(usize, usize)> {
-                    let start = *self.start() as i64;
-                    let end = *self.end() as i64;
+                    let start = index_i64(*self.start());
+                    let end = index_i64(*self.end());
                     range_bounds(start..=end, size)
                 }
             }
 
             impl ViewBounds for RangeToInclusive<$int_type> {
                 fn view_bounds(self, size: usize) -> Option<(usize, usize)> {
-                    let end = self.end as i64;
+                    let end = index_i64(self.end);
                     range_bounds(..=end, size)
                 }
             }
@@ -833,6 +833,11 @@ macro_rules! impl_range_ints(
     }
 );
 impl_range_ints!(u8, i8, u16, i16, u32, i32, u64, i64, usize, isize);
+
+/// Convert index to `i64`, indices that do not fit are beyond any axis and saturate
+fn index_i64<T: TryInto<i64>>(index: T) -> i64 {
+    index.try_into().unwrap_or(i64::MAX)
+}
 
 fn range_bounds(bound: impl RangeBounds<i64>, size: usize) -> Option<(usize, usize)> {
     //  (index + size) % size - almost works
